@@ -674,6 +674,39 @@ def c10(ctx):
                 viols.append(V("C10", "order-dependence-variant", sc_v,
                                "a configuration differing in one crop parameter from one run earlier in the process gives other results than alone",
                                after=b0["id"]))
+    # (f) the catalogue soils after one another in ONE process under a shallow water table (every derived soil quantity —
+    # capillary-rise coefficients, drainage characteristic, curve number, evaporable water — is then computed for each
+    # soil right after a different one), against each alone in a freshly forked process: something remembered from an
+    # earlier model under a key that leaves part of the soil out is handed to the wrong model
+    try:
+        srng = np.random.default_rng(seed + 1011)
+        soils = [str(x) for x in srng.permutation(S.BUILTIN_SOILS)]
+        if tier == "quick":
+            # the two orders of every pair of catalogue soils that share a saturated conductivity, then a sample of the rest
+            from aquacrop import Soil as _Soil
+            ks = {}
+            for nm in S.BUILTIN_SOILS:
+                try:
+                    ks.setdefault(tuple(float(x) for x in _Soil(nm).profile["Ksat"].values), []).append(nm)
+                except Exception:  # noqa: BLE001
+                    pass
+            twins = [g for g in ks.values() if len(g) > 1]
+            soils = [nm for g in twins for nm in (g + g[:1])] + soils[:4]
+        sb = dict(start="1985/10/15", end="1986/07/30", weather={"kind": "file", "name": "tunis_climate.txt"},
+                  crop={"name": "Wheat", "planting": "10/15", "overrides": {}}, irr={"method": 0}, off_season=False,
+                  gw={"water_table": "Y", "method": "Constant", "dates": ["1985-10-15"], "values": [1.6]})
+        ss = [dict(sb, id=f"c10-soil-seq-{i}-{nm}", soil={"type": nm}) for i, nm in enumerate(soils)]
+        together = run_in_subprocess(ss, 0)
+        apart = run_each_forked(ss, 0)
+        for i, (sc_v, a_, b_) in enumerate(zip(ss, together, apart)):
+            evals += 1
+            n_var += 1
+            if a_ != b_:
+                viols.append(V("C10", "order-dependence-soil", sc_v,
+                               "a configuration run after models on other catalogue soils (under a water table) gives other results than alone",
+                               after=[x["id"] for x in ss[:i]]))
+    except RuntimeError:
+        raise
     return viols, dict(evaluations=evals, distinct_nontrivial=len(scs) * len(seeds) + n_var, c10_hash_seeds=seeds,
                        c10_samples=[dict(scen=s["id"], crop=s["crop"]["name"]) for s in scs[:2]])
 
@@ -941,6 +974,14 @@ def c14(ctx):
     # extensions that bring a further planting date / further years of a sparse CO2 series into the window
     # (inputs of the *initialisation* that grow with the window: the list of planting dates, the years interpolated)
     scs = [
+        # thermal-time crops whose window opens with a fallow lead-in of several weeks before the first planting date (the
+        # degree-day series of the first season must start at the planting date, wherever the table and the window start)
+        dict(id=14908, start="1982/08/25", end="1984/09/30", weather={"kind": "file", "name": "tunis_climate.txt"},
+             soil={"type": "SandyLoam"}, crop={"name": "WheatGDD", "planting": "10/15", "overrides": {}},
+             irr={"method": 0}, off_season=True, _ext_days=90),
+        dict(id=14909, start="1991/02/10", end="1992/12/30", weather={"kind": "file", "name": "champion_climate.txt"},
+             soil={"type": "Loam"}, crop={"name": "MaizeGDD", "planting": "05/01", "overrides": {}},
+             irr={"method": 0}, off_season=False, _ext_days=200),
         dict(id=14900, start="1980/10/15", end="1982/07/31", weather={"kind": "file", "name": "tunis_climate.txt"},
              soil={"type": "SandyLoam"}, crop={"name": "WheatGDD", "planting": "10/15", "overrides": {}},
              irr={"method": 0}, off_season=False, _ext_days=365),
@@ -1041,6 +1082,17 @@ def c14(ctx):
             viols.append(V("C14", "outside-window-raises", sc, "weather outside the window makes the run raise", error=r2.error))
         elif not tables_equal(base, r2):
             viols.append(V("C14", "outside-window", sc, "weather records outside the window change the results", diff=first_diff(base, r2)))
+        # (b'') the table trimmed to exactly the window (rows keep the labels they had in the longer table, as after a
+        # boolean-mask selection, and once more with labels renumbered): the records dropped lie outside the window
+        if len(pre) or len(post):
+            for tag, w4 in (("", inside.copy()), ("-renumbered", inside.reset_index(drop=True))):
+                o4 = S.build_objects(sc); o4["weather_df"] = w4
+                r4 = run_full(objects=o4)
+                evals += 1; nontriv += 1
+                if r4.error:
+                    viols.append(V("C14", "outside-trimmed" + tag + "-raises", sc, "dropping the records outside the window makes the run raise", error=r4.error))
+                elif not tables_equal(base, r4):
+                    viols.append(V("C14", "outside-trimmed" + tag, sc, "dropping the weather records outside the window changes the results", diff=first_diff(base, r4)))
         # (b') records missing outside the window (a gap before the start, another after the end):
         # inside the window the table is complete, so nothing may change
         if len(padL) > 6 and len(padR) > 6:
@@ -1476,6 +1528,12 @@ def c16_qualify(sc, key):
             if not inside or cal == 2 or int(crop.get("overrides", {}).get("SwitchGDD", 0)) == 1 or (len(inside) == 1 and over_new_year):
                 return key
             return key + "-planting-date-inside-window"
+        if key == "raises-IndexError-prepare_gdd":
+            # recorded: SwitchGDD = 1 and a last season of the window shorter than the crop's calendar (the look-up of a
+            # stage at its calendar-day position falls off the end of that season's rows)
+            mat = float(crop.get("overrides", {}).get("MaturityCD", cp.get("MaturityCD", 0)) or 0)
+            short = bool(inside) and (end - inside[-1]).days < mat + 31
+            return key if (int(crop.get("overrides", {}).get("SwitchGDD", 0)) == 1 and short) else key + "-all-seasons-complete"
         if key == "raises-UnboundLocalError-check_groundwater_table":
             gw = sc.get("gw") or {}
             ds = sorted(pd.Timestamp(str(d)[:10]) for d in gw.get("dates", []))
@@ -1655,6 +1713,15 @@ def c16_scenarios(seed, tier):
                             weather={"kind": "file", "name": "champion_climate.txt"}, soil={"type": "SandyLoam"},
                             crop={"name": crop, "planting": pl, "overrides": {}}, irr={"method": 0},
                             off_season=False, c16_leap_day=False, fm=None, ffm=None, gw=None, co2=None))
+    # the documented switch `SwitchGDD = 1` (a calendar-day crop converted to thermal time at initialisation,
+    # `prepare_gdd`): complete seasons only, and a window that ends a few weeks into its last season (the recorded
+    # finding `raises-IndexError-prepare_gdd`: the conversion looks every stage up in every season of the window)
+    for j, (crop, wname, pl, st, en, tag) in enumerate((("Wheat", "tunis_climate.txt", "10/01", "1985/10/01", "1988/09/30", "complete"),
+                                                        ("Potato", "brussels_climate.txt", "04/25", "1990/04/25", "1992/04/20", "complete"),
+                                                        ("Wheat", "tunis_climate.txt", "10/01", "1985/10/01", "1988/01/15", "short-last-season"))):
+        out.append(dict(id=f"c16-switchgdd-{crop}-{tag}", start=st, end=en, weather={"kind": "file", "name": wname},
+                        soil={"type": "Loam"}, crop={"name": crop, "planting": pl, "overrides": {"SwitchGDD": 1}}, irr={"method": 0},
+                        off_season=False, c16_leap_day=False, fm=None, ffm=None, gw=None, co2=None))
     return out
 
 
